@@ -79,6 +79,9 @@ thread_local! {
     static IN_GUARD: std::cell::Cell<u32> = const { std::cell::Cell::new(0) };
 }
 pub static PANICS_SEEN: AtomicU64 = AtomicU64::new(0);
+pub static UNGUARDED_ENGINE_PANIC: std::sync::atomic::AtomicBool = std::sync::atomic::AtomicBool::new(false);
+/// exit code when the engine panicked inside a call the driver had not wrapped in `guard`
+pub const EXIT_ENGINE_PANIC: i32 = 96;
 
 pub fn install_panic_hook() {
     std::panic::set_hook(Box::new(|info| {
@@ -91,8 +94,13 @@ pub fn install_panic_hook() {
             "<non-string panic>".to_string()
         };
         if IN_GUARD.with(|g| g.get()) == 0 {
-            // a panic of the harness itself, outside any monitored engine call
+            // outside any monitored engine call: either a bug of the harness, or the engine panicked in a call
+            // the driver did not wrap. The latter is a verdict about the engine (main.rs exits with EXIT_ENGINE_PANIC).
             eprintln!("harness panic: {msg} @ {loc}");
+            if loc.starts_with("/repo/") || loc.contains("/tera/src/") || loc.contains("/tera-contrib/src/") {
+                eprintln!("ENGINE-PANIC-SITE {}", loc.rsplit("/repo/").next().unwrap_or(&loc));
+                UNGUARDED_ENGINE_PANIC.store(true, Ordering::Relaxed);
+            }
             return;
         }
         PANICS_SEEN.fetch_add(1, Ordering::Relaxed);
